@@ -1,4 +1,4 @@
-import Nstd.Avl.LemmasCost
+import Nstd.Avl.LemmasStable
 /-
   Property C01 — Map and MultiMap stay sorted, complete and logarithmically deep.
 
@@ -330,6 +330,18 @@ theorem count_correct {s : St} (hr : Reach true s) (k : Int) :
   obtain ⟨hI, hO, hm⟩ := invs_reach hr
   exact g_count_correct s hI hO hm k
 
+/-- **Items never change identity while they live** (the C05 side of this container, stated in the
+    model): after any op from a reachable state every item `(id, key, value)` of the tree is still in
+    the tree with the same id, key and value — its value changes only when a Map insert / hinted
+    insert assigns to its key — or its id has been released to the free list (removal, clear).
+    Rotations and the two-child removal relink items, they never copy them. -/
+theorem ids_stable_step {multi : Bool} {s : St} (hr : Reach multi s) (op : Op) (r : St × Out)
+    (h : step s op = some r) (e : Nat × Int × Int) (he : e ∈ s.t.inorder) : Survives multi op r.1 e := by
+  obtain ⟨hI, hO, hm⟩ := invs_reach hr
+  have := step_survives s hI hO op r h e he
+  rw [hm] at this
+  exact this
+
 /-- **MultiMap stability**: a plain insert puts the entry behind every entry with a key `≤ k`
     (in particular behind all equal keys inserted before) and in front of every larger key. -/
 theorem multi_insert_stable (ops : List Op) (k v : Int) :
@@ -396,6 +408,9 @@ example : ∀ op ∈ sampleOps, op.det false = true := by decide
 example : IsLogBound 7 4 := by
   unfold IsLogBound
   constructor <;> decide +kernel
+/-- removing the two-child root 4 of `sampleOps`' tree keeps the ids of all other items -/
+example : (run false (sampleOps.take 8)).t.inorder.map (fun e => e.1) = [0, 2, 7, 3, 6, 1, 5, 4] ∧
+    (run false sampleOps).t.inorder.map (fun e => e.1) = [0, 2, 7, 6, 1, 5, 4] := by decide +kernel
 example : abs (run true [.insert 5 1, .insert 5 2, .insert 3 9, .insert 5 3]) = [(3, 9), (5, 1), (5, 2), (5, 3)] := by
   decide +kernel
 example : ∃ r, step (run true [.insert 5 1, .insert 5 2, .insert 5 3]) (.count 5) = some r ∧ r.2.ret = .num 3 :=
